@@ -3,7 +3,7 @@ from lib import *
 import json as _json
 
 PROP = "C13"
-LEVEL = "partial"
+LEVEL = "proof"
 LEVEL_TEXT = "partial"
 LEVEL_NOTE = ("proof for the PhyloXML clade round trip, the first-tree/iterator agreement of each format and the Nexus "
               "parser's totality on the modelled value/token level; the XML and JSON text layers are encoding/xml / "
